@@ -24,11 +24,50 @@ class SingleRootField(June2018ReleaseValidationRule):
     RULE_LINK = "https://graphql.github.io/graphql-spec/June2018/#sec-Single-root-field"
     RULE_NUMBER = "5.2.3.1"
 
+    def _collect_response_keys(
+        self, selection_set, fragments, visited_fragments, response_keys
+    ):
+        for selection in selection_set.selections:
+            if isinstance(selection, FragmentSpreadNode):
+                fragment_name = selection.name.value
+                if fragment_name in visited_fragments:
+                    continue
+                visited_fragments.add(fragment_name)
+
+                frag = _find_fragment(fragments, fragment_name)
+                if not frag:
+                    continue  # Handled by another validator
+
+                self._collect_response_keys(
+                    frag.selection_set,
+                    fragments,
+                    visited_fragments,
+                    response_keys,
+                )
+            elif isinstance(selection, InlineFragmentNode):
+                self._collect_response_keys(
+                    selection.selection_set,
+                    fragments,
+                    visited_fragments,
+                    response_keys,
+                )
+            else:
+                response_keys.add(
+                    selection.alias.value
+                    if selection.alias
+                    else selection.name.value
+                )
+        return response_keys
+
     def _validate_selection_set(
         self, operation, selection_set, fragments, path
     ):
-        nb_selections = len(selection_set.selections)
-        if nb_selections > 1:
+        # The rule is about the collected fields: the same response key
+        # selected several times is still a single root field
+        response_keys = self._collect_response_keys(
+            selection_set, fragments, set(), set()
+        )
+        if len(response_keys) > 1:
             message = f"{f'Subcription {operation.name.value}' if operation.name else 'Anonymous Subscription'}"
             return [
                 graphql_error_from_nodes(
@@ -38,23 +77,6 @@ class SingleRootField(June2018ReleaseValidationRule):
                     extensions=self._extensions,
                 )
             ]
-
-        if nb_selections == 1:
-            selected = selection_set.selections[0]
-            if isinstance(selected, FragmentSpreadNode):
-                frag = _find_fragment(fragments, selected.name.value)
-
-                if not frag:
-                    return []  # Handled by another validator
-
-                return self._validate_selection_set(
-                    operation, frag.selection_set, fragments, path
-                )
-
-            if isinstance(selected, InlineFragmentNode):
-                return self._validate_selection_set(
-                    operation, selected.selection_set, fragments, path
-                )
 
         return []
 
